@@ -291,6 +291,45 @@ def run(ctx):
                                                    "could depend on what the process has imported / on addresses of objects" % name,
                                            "input": {"files": dict((k_, v_ % {"pk": pk} if "%(pk)s" in v_ else v_) for k_, v_ in files.items()), "seed0": rmaps["seed0"], name: m}, "kf": None})
                     break
+        # ... nor a partial reload: the module of a helper is edited (the helper moves to other lines, its body changes) and reloaded
+        # with importlib.reload while the module that imported the helper by name (from lib import helper) is not: the signatures are
+        # those of a fresh process started on the files as they are now (same source text, same variables)
+        LIB1 = "RATE = 1\n\ndef helper():\n    return 'helper-1'\n\ndef other():\n    return 'other'\n"
+        LIB2 = "RATE = 2\n\ndef inserted():\n    x = 1\n    return 'inserted'\n\n\ndef helper():\n    return 'helper-2'\n\ndef other():\n    return 'other'\n"
+        for hi_, use in enumerate(["helper()", "helper() + lib.other() + str(lib.RATE)", "hof(helper)"]):
+            pk = "c3p%d_%d" % (hi_, os.getpid())
+            MAIN = ("import dds\nfrom ddsverif_rt import hof\nfrom %(pk)s.lib import helper\nimport %(pk)s.lib as lib\n\ndef stage():\n    return " + use +
+                    "\n\ndef f0():\n    return dds.keep('/c03/reload', stage)\n") % {"pk": pk}
+            os.makedirs(os.path.join(base, pk), exist_ok=True)
+            for fn_, src_ in (("__init__.py", ""), ("lib.py", LIB1), ("main.py", MAIN)):
+                with open(os.path.join(base, pk, fn_), "w") as fh:
+                    fh.write(src_)
+            hmaps = {}
+            wk = workers["seed0"]
+            sd = tempfile.mkdtemp(prefix="c3s_", dir=base)
+            wk.call(cmd="store", kind="memory", internal_dir=sd + "/i", data_dir=sd + "/d")
+            wk.call(cmd="world", dir=base, module=pk + ".main", extmod="c3e_fixed", accept=pk)
+            r = wk.call(cmd="run", entry=entry)
+            hmaps["before the edit"] = r["paths"] if r["error"] is None else {"REFUSED": [r["error"].get("kind"), r["error"].get("code") or r["error"].get("cls")]}
+            with open(os.path.join(base, pk, "lib.py"), "w") as fh:
+                fh.write(LIB2)
+            wk.call(cmd="exec", stmt="__import__('importlib').reload(__import__('sys').modules[%r])" % (pk + ".lib"))
+            r = wk.call(cmd="run", entry=entry)
+            hmaps["after the edit and importlib.reload of the helper's module"] = r["paths"] if r["error"] is None else {"REFUSED": [r["error"].get("kind"), r["error"].get("code") or r["error"].get("cls")]}
+            wk2 = workers["after_history"]
+            sd = tempfile.mkdtemp(prefix="c3s_", dir=base)
+            wk2.call(cmd="store", kind="memory", internal_dir=sd + "/i", data_dir=sd + "/d")
+            wk2.call(cmd="world", dir=base, module=pk + ".main", extmod="c3e_fixed", accept=pk)
+            r = wk2.call(cmd="run", entry=entry)
+            hmaps["a process that only saw the edited files"] = r["paths"] if r["error"] is None else {"REFUSED": [r["error"].get("kind"), r["error"].get("code") or r["error"].get("cls")]}
+            res.evaluations += 3
+            res.nontrivial("partial reload %d" % hi_)
+            res.count("partial_reload_histories")
+            a_, b_ = hmaps["after the edit and importlib.reload of the helper's module"], hmaps["a process that only saw the edited files"]
+            if a_ != b_ or "REFUSED" in b_ or hmaps["before the edit"] == b_:
+                res.violations.append({"what": "after an edit and a reload of the helper's module only, the signatures differ from those of a process that only saw the "
+                                               "edited files (same source text): %s" % (hmaps,),
+                                       "input": {"main.py": MAIN, "lib.py before": LIB1, "lib.py after": LIB2, "signatures": hmaps}, "kf": None})
         if ctx["driver_ok"]:
             ans = common.drv_batch(mreqs)
             for (w, ref, pinned, pin_name, extmod), a in zip(mmeta, ans):
